@@ -141,6 +141,12 @@ pub struct Session {
     pub scan_limit: usize,
     /// when set, every observation also walks a fresh iterator randomly (C04)
     pub walk_rng: Option<StdRng>,
+    /// reopen with the option matrix: every other reopen of an existing database asks for
+    /// `create_if_missing = false` (must succeed), every third one is preceded by an attempt with
+    /// `error_if_exists = true` (refused by a correct raindb; whatever it does, the database must
+    /// be what it was)
+    pub open_matrix: bool,
+    pub opened_ok: usize,
 }
 
 pub fn random_opts(rng: &mut StdRng) -> OptSet {
@@ -178,14 +184,42 @@ impl Session {
     pub fn open(&mut self, opts: &OptSet) -> Result<(), String> {
         self.opts = opts.clone();
         self.opens.push((self.fs.journal_len(), opts.clone()));
+        let nth = self.opens.len();
+        if self.open_matrix && self.opened_ok > 0 && nth % 3 == 2 {
+            // an open that must be refused (the database exists); if it is not refused it is an
+            // ordinary open followed by a close
+            self.emit("Open", json!({"opts": opts.json(), "probe": "error_if_exists"}));
+            let mut o = opts.to_options(ROOT, &self.fs);
+            o.error_if_exists = true;
+            let r = self.wd.call("open", || {
+                std::panic::catch_unwind(std::panic::AssertUnwindSafe(|| DB::open(o)))
+            });
+            match r {
+                Ok(Ok(db)) => {
+                    self.emit("OpenRet", json!({"ok": true}));
+                    self.db = Some(db);
+                    self.close();
+                }
+                Ok(Err(e)) => {
+                    self.emit("OpenRefused", json!({"err": e.to_string()}));
+                }
+                Err(_) => {
+                    self.emit("OpenRet", json!({"ok": false, "err": "panic"}));
+                }
+            }
+        }
         self.emit("Open", json!({"opts": opts.json()}));
-        let o = opts.to_options(ROOT, &self.fs);
+        let mut o = opts.to_options(ROOT, &self.fs);
+        if self.open_matrix && self.opened_ok > 0 && nth % 2 == 1 {
+            o.create_if_missing = false;
+        }
         let r = self.wd.call("open", || {
             std::panic::catch_unwind(std::panic::AssertUnwindSafe(|| DB::open(o)))
         });
         match r {
             Ok(Ok(db)) => {
                 self.db = Some(db);
+                self.opened_ok += 1;
                 self.emit("OpenRet", json!({"ok": true}));
                 Ok(())
             }
@@ -967,6 +1001,8 @@ pub fn run_hist(
         } else {
             None
         },
+        open_matrix: true,
+        opened_ok: 0,
     };
     let mut ops_done: Vec<Op> = vec![];
     let mut g = GenState {
